@@ -268,7 +268,24 @@ pub fn eval_plan(w: &CliWorld, cmd: &UCmd, plan: &Plan, known: &KnownFindings) -
         n_assertable = false;
         continue; // std::fs::write promises no atomicity and neither does the property
       }
-      let edits: Vec<AnnEdit> = ann.get(path).cloned().unwrap_or_default();
+      let mut edits: Vec<AnnEdit> = ann.get(path).cloned().unwrap_or_default();
+      // blocks that spell their language differently (<script> / <script lang="jsx">) are documents
+      // of their own although the language is one: tell them apart by the opening tag
+      if path.ends_with(".html") {
+        if let Ok(text) = std::str::from_utf8(old) {
+          for e in edits.iter_mut() {
+            let upto = &text[..e.start.min(text.len())];
+            if let Some(open) = upto.rfind("<script").into_iter().chain(upto.rfind("<style")).max() {
+              if let Some(close) = text[open..].find('>') {
+                let inside = !text[open..e.start.min(text.len())].contains("</s");
+                if open + close < e.start && inside && !e.doc.starts_with("Html") {
+                  e.doc = format!("{} {}", e.doc, &text[open..open + close + 1]);
+                }
+              }
+            }
+          }
+        }
+      }
       if read_faulted.contains(&path.as_str()) {
         // skipped file: must be untouched
         if new != old {
